@@ -6,16 +6,143 @@
 #include <vector>
 #include <algorithm>
 
+#include <map>
+#include <deque>
+#include <string>
+#include <sys/file.h>
+
 using namespace simk;
 namespace simk { void shim_call(uint32_t site); }
 
+// ------------------------------------------------------------------ simulated processes and their descriptors
 namespace simk {
+
+struct FdInfo {
+	int owner;            // sim pid owning the descriptor (0: not tracked)
+	int peer;             // stream sockets: sim pid at the other end (0: unknown)
+	int kind;             // 0 other, 1 stream socket, 2 listening socket, 3 dgram socket
+	std::string name;     // bound abstract / file name
+};
+static std::vector<FdInfo> fdt;
+static std::map<int, Proc> procs;
+static std::map<std::string, int> listeners;                       // bound stream name -> owner sim pid
+static std::map<std::string, std::deque<int> > pending_connects;   // listener name -> sim pids of connectors, FIFO
+struct PathOwner { uid_t uid; gid_t gid; bool set; };
+static std::map<std::string, PathOwner> chown_ledger;
+static int g_zero_streak;
+
 void shim_io_reset()
 {
-}
+	fdt.clear();
+	procs.clear();
+	listeners.clear();
+	pending_connects.clear();
+	chown_ledger.clear();
+	g_zero_streak = 0;
 }
 
+void proc_define(int spid, unsigned uid, unsigned gid)
+{
+	Proc p; p.spid = spid; p.uid = uid; p.gid = gid; p.alive = true; p.killable = false;
+	procs[spid] = p;
+}
+Proc *proc_get(int spid)
+{
+	std::map<int, Proc>::iterator it = procs.find(spid);
+	return it == procs.end() ? NULL : &it->second;
+}
+bool proc_alive(int spid) { Proc *p = proc_get(spid); return p && p->alive; }
+
+static FdInfo *fdi(int fd)
+{
+	if (fd < 0 || fd > 65535) return NULL;
+	if ((size_t)fd >= fdt.size()) fdt.resize((size_t)fd + 1);
+	return &fdt[(size_t)fd];
+}
+static void fd_track(int fd, int kind)
+{
+	FdInfo *f = fdi(fd);
+	if (!f) return;
+	f->owner = in_task() ? cur_spid() : 0;
+	f->peer = 0; f->kind = kind; f->name.clear();
+}
+static void fd_forget(int fd)
+{
+	FdInfo *f = fdi(fd);
+	if (!f) return;
+	if (f->kind == 2 && !f->name.empty()) { listeners.erase(f->name); pending_connects.erase(f->name); }
+	f->owner = 0; f->peer = 0; f->kind = 0; f->name.clear();
+}
+// may the calling sim process use this descriptor? (a descriptor number means nothing in somebody else's table)
+static bool fd_ok(int fd)
+{
+	if (!in_task() || fd < 0 || (size_t)fd >= fdt.size()) return true;
+	int o = fdt[(size_t)fd].owner;
+	return o == 0 || o == cur_spid();
+}
+int fd_owner(int fd) { return fd >= 0 && (size_t)fd < fdt.size() ? fdt[(size_t)fd].owner : 0; }
+int fds_owned_by(int spid, int *out, int max)
+{
+	int n = 0;
+	for (size_t fd = 0; fd < fdt.size(); fd++)
+		if (fdt[fd].owner == spid) { if (out && n < max) out[n] = (int)fd; n++; }
+	return n;
+}
+bool path_owner(const char *path, unsigned *uid, unsigned *gid)
+{
+	std::map<std::string, PathOwner>::iterator it = chown_ledger.find(path);
+	if (it == chown_ledger.end()) return false;
+	*uid = it->second.uid; *gid = it->second.gid;
+	return true;
+}
+
+// the process of the calling task dies here and now: the kernel closes its descriptors, nothing else happens
+void proc_die()
+{
+	if (!in_task()) return;
+	int spid = cur_spid();
+	Proc *p = proc_get(spid);
+	if (p) p->alive = false;
+	for (size_t fd = 0; fd < fdt.size(); fd++) {
+		if (fdt[fd].owner == spid) {
+			close((int)fd);
+			fd_forget((int)fd);
+		}
+	}
+	if (shim_hooks().on_proc_death) shim_hooks().on_proc_death(spid);
+	for (int t = 0; t < n_tasks(); t++)
+		if (t != cur_task() && task_spid(t) == spid) kill_task(t);
+	kill_task(cur_task());
+}
+
+} // namespace simk
+
+#define OWN(fd) do { if (!fd_ok(fd)) { errno = EBADF; return -1; } } while (0)
+
 static ShimCfg &C() { return shim_cfg(); }
+
+// every intercepted call of a killable process is a possible point of death
+static inline void call_point(uint32_t site)
+{
+	shim_call(site);
+	if (in_task() && C().kill_spid && cur_spid() == C().kill_spid && fault_here(F_KILL_BEFORE, C().rate_kill, NULL, 0))
+		proc_die();
+}
+
+static std::string sun_name(const struct sockaddr *a, socklen_t l)
+{
+	if (!a || a->sa_family != AF_UNIX || l <= sizeof(sa_family_t)) return std::string();
+	const struct sockaddr_un *u = (const struct sockaddr_un *)a;
+	size_t n = l - sizeof(sa_family_t);
+	if (u->sun_path[0] == 0) {
+		// abstract: the name is everything after the leading NUL, libqb passes a NUL padded string
+		std::string s(u->sun_path + 1, n > 1 ? n - 1 : 0);
+		size_t z = s.find('\0');
+		if (z != std::string::npos) s.resize(z);
+		return "@" + s;
+	}
+	return std::string(u->sun_path, strnlen(u->sun_path, n));
+}
 
 // the one fixed shared-memory name libqb uses is made unique per worker process
 static const char *rw_path(const char *p, char *buf, size_t n)
@@ -33,22 +160,36 @@ extern "C" int simk_open(const char *path, int flags, ...)
 {
 	mode_t mode = 0;
 	if (flags & (O_CREAT | O_TMPFILE)) { va_list ap; va_start(ap, flags); mode = (mode_t)va_arg(ap, int); va_end(ap); }
-	shim_call(S_OPEN);
+	call_point(S_OPEN);
 	char b[PATH_MAX];
 	if (fault_here(F_EMFILE, C().rate_emfile, NULL, 0)) { errno = EMFILE; return -1; }
-	return open(rw_path(path, b, sizeof b), flags, mode);
+	int fd = open(rw_path(path, b, sizeof b), flags, mode);
+	if (fd >= 0) fd_track(fd, 0);
+	if (fd >= 0 && (flags & O_CREAT) && in_task() && shim_hooks().on_path) shim_hooks().on_path(path, 'c');
+	return fd;
 }
 extern "C" int simk_openat(int dfd, const char *path, int flags, ...)
 {
 	mode_t mode = 0;
 	if (flags & (O_CREAT | O_TMPFILE)) { va_list ap; va_start(ap, flags); mode = (mode_t)va_arg(ap, int); va_end(ap); }
-	shim_call(S_OPEN);
-	return openat(dfd, path, flags, mode);
+	call_point(S_OPEN);
+	OWN(dfd);
+	int fd = openat(dfd, path, flags, mode);
+	if (fd >= 0) fd_track(fd, 0);
+	return fd;
 }
-extern "C" int simk_close(int fd) { shim_call(S_CLOSE); return close(fd); }
+extern "C" int simk_close(int fd)
+{
+	call_point(S_CLOSE);
+	OWN(fd);
+	int r = close(fd);
+	if (r == 0 || errno != EBADF) fd_forget(fd);
+	return r;
+}
 extern "C" ssize_t simk_read(int fd, void *buf, size_t n)
 {
-	shim_call(S_READ);
+	call_point(S_READ);
+	OWN(fd);
 	int64_t a;
 	if (fault_here(F_READ_ERR, C().rate_read_err, &a, 2)) { errno = a ? EIO : EINTR; return -1; }
 	if (n > 1 && fault_here(F_READ_SHORT, C().rate_read_short, &a, (int64_t)n - 1)) n = (size_t)a + 1;
@@ -58,61 +199,227 @@ extern "C" ssize_t simk_read(int fd, void *buf, size_t n)
 }
 extern "C" ssize_t simk_write(int fd, const void *buf, size_t n)
 {
-	shim_call(S_WRITE);
+	call_point(S_WRITE);
+	OWN(fd);
 	int64_t a;
 	if (fault_here(F_WRITE_ERR, C().rate_write_err, &a, 2)) { errno = a ? EIO : ENOSPC; return -1; }
+	if (fault_here(F_WRITE_LOST, C().rate_write_lost, NULL, 0)) return (ssize_t)n;
 	if (n > 1 && fault_here(F_WRITE_SHORT, C().rate_write_short, &a, (int64_t)n - 1)) n = (size_t)a + 1;
 	return write(fd, buf, n);
 }
 extern "C" int simk_pipe(int fds[2])
 {
-	shim_call(S_PIPE);
+	call_point(S_PIPE);
 	int r = pipe(fds);
+	if (r == 0) { fd_track(fds[0], 0); fd_track(fds[1], 0); }
 	if (r == 0 && in_task() && shim_hooks().on_pipe) shim_hooks().on_pipe(fds[0], fds[1]);
 	return r;
 }
 extern "C" int simk_fcntl(int fd, int cmd, ...)
 {
 	va_list ap; va_start(ap, cmd); long arg = va_arg(ap, long); va_end(ap);
-	shim_call(S_FCNTL);
+	call_point(S_FCNTL);
+	OWN(fd);
 	return fcntl(fd, cmd, arg);
 }
-extern "C" off_t simk_lseek(int fd, off_t o, int w) { shim_call(S_LSEEK); return lseek(fd, o, w); }
-extern "C" int simk_fstat(int fd, struct stat *st) { shim_call(S_FSTAT); return fstat(fd, st); }
-extern "C" int simk_ftruncate(int fd, off_t n) { shim_call(S_FTRUNC); return ftruncate(fd, n); }
+extern "C" off_t simk_lseek(int fd, off_t o, int w) { call_point(S_LSEEK); OWN(fd); return lseek(fd, o, w); }
+extern "C" int simk_fstat(int fd, struct stat *st) { call_point(S_FSTAT); OWN(fd); return fstat(fd, st); }
+extern "C" int simk_ftruncate(int fd, off_t n) { call_point(S_FTRUNC); OWN(fd); return ftruncate(fd, n); }
 extern "C" int simk_posix_fallocate(int fd, off_t o, off_t n)
 {
-	shim_call(S_FALLOC);
+	call_point(S_FALLOC);
+	if (!fd_ok(fd)) return EBADF;
 	if (fault_here(F_FALLOC_ENOSPC, C().rate_falloc, NULL, 0)) return ENOSPC;
+	if (C().shm_quota_bytes > 0 && (int64_t)n > C().shm_quota_bytes) return ENOSPC;
 	return posix_fallocate(fd, o, n);
 }
-extern "C" int simk_fdatasync(int fd) { shim_call(S_FSYNC); return fdatasync(fd); }
+extern "C" int simk_fdatasync(int fd) { call_point(S_FSYNC); OWN(fd); return fdatasync(fd); }
 
 // ------------------------------------------------------------------ sockets
-extern "C" int simk_socket(int d, int t, int p) { shim_call(S_SOCKET); return socket(d, t, p); }
-extern "C" int simk_socketpair(int d, int t, int p, int sv[2]) { shim_call(S_SOCKETPAIR); return socketpair(d, t, p, sv); }
-extern "C" int simk_bind(int fd, const struct sockaddr *a, socklen_t l) { shim_call(S_BIND); return bind(fd, a, l); }
-extern "C" int simk_listen(int fd, int b) { shim_call(S_LISTEN); return listen(fd, b); }
-extern "C" int simk_connect(int fd, const struct sockaddr *a, socklen_t l) { shim_call(S_CONNECT); return connect(fd, a, l); }
-extern "C" int simk_accept(int fd, struct sockaddr *a, socklen_t *l) { shim_call(S_ACCEPT); return accept(fd, a, l); }
-extern "C" ssize_t simk_send(int fd, const void *b, size_t n, int f) { shim_call(S_SEND); return send(fd, b, n, f); }
-extern "C" ssize_t simk_recv(int fd, void *b, size_t n, int f) { shim_call(S_RECV); return recv(fd, b, n, f); }
-extern "C" ssize_t simk_recvmsg(int fd, struct msghdr *m, int f) { shim_call(S_RECVMSG); return recvmsg(fd, m, f); }
-extern "C" ssize_t simk_writev(int fd, const struct iovec *v, int n) { shim_call(S_WRITEV); return writev(fd, v, n); }
-extern "C" int simk_shutdown(int fd, int how) { shim_call(S_SHUTDOWN); return shutdown(fd, how); }
-extern "C" int simk_getsockopt(int fd, int l, int o, void *v, socklen_t *n) { shim_call(S_GETSOCKOPT); return getsockopt(fd, l, o, v, n); }
-extern "C" int simk_setsockopt(int fd, int l, int o, const void *v, socklen_t n) { shim_call(S_SETSOCKOPT); return setsockopt(fd, l, o, v, n); }
-extern "C" int simk_getsockname(int fd, struct sockaddr *a, socklen_t *l) { shim_call(S_GETSOCKNAME); return getsockname(fd, a, l); }
+static void small_sndbuf(int fd)
+{
+	if (C().sndbuf_bytes > 0) { int v = C().sndbuf_bytes; setsockopt(fd, SOL_SOCKET, SO_SNDBUF, &v, sizeof v); }
+}
+extern "C" int simk_socket(int d, int t, int p)
+{
+	call_point(S_SOCKET);
+	if (fault_here(F_EMFILE, C().rate_emfile, NULL, 0)) { errno = EMFILE; return -1; }
+	int fd = socket(d, t, p);
+	if (fd >= 0) fd_track(fd, (t & 0xf) == SOCK_STREAM ? 1 : 3);
+	return fd;
+}
+extern "C" int simk_socketpair(int d, int t, int p, int sv[2])
+{
+	call_point(S_SOCKETPAIR);
+	int r = socketpair(d, t, p, sv);
+	if (r == 0) { fd_track(sv[0], 0); fd_track(sv[1], 0); }
+	return r;
+}
+extern "C" int simk_bind(int fd, const struct sockaddr *a, socklen_t l)
+{
+	call_point(S_BIND);
+	OWN(fd);
+	int r = bind(fd, a, l);
+	if (r == 0) { FdInfo *f = fdi(fd); if (f) f->name = sun_name(a, l); }
+	return r;
+}
+extern "C" int simk_listen(int fd, int b)
+{
+	call_point(S_LISTEN);
+	OWN(fd);
+	int r = listen(fd, b);
+	if (r == 0) { FdInfo *f = fdi(fd); if (f) { f->kind = 2; if (!f->name.empty()) listeners[f->name] = f->owner; } }
+	return r;
+}
+extern "C" int simk_connect(int fd, const struct sockaddr *a, socklen_t l)
+{
+	call_point(S_CONNECT);
+	OWN(fd);
+	int r = connect(fd, a, l);
+	FdInfo *f = fdi(fd);
+	if (r == 0 && f && f->kind == 1) {
+		std::string n = sun_name(a, l);
+		std::map<std::string, int>::iterator it = listeners.find(n);
+		if (it != listeners.end()) {
+			f->peer = it->second;
+			pending_connects[n].push_back(in_task() ? cur_spid() : 0);    // the kernel's accept queue is FIFO too
+			small_sndbuf(fd);
+		}
+	}
+	return r;
+}
+extern "C" int simk_accept(int fd, struct sockaddr *a, socklen_t *l)
+{
+	call_point(S_ACCEPT);
+	OWN(fd);
+	if (fault_here(F_EMFILE, C().rate_emfile, NULL, 0)) { errno = EMFILE; return -1; }
+	int nfd = accept(fd, a, l);
+	if (nfd >= 0) {
+		fd_track(nfd, 1);
+		FdInfo *lf = fdi(fd), *nf = fdi(nfd);
+		if (lf && nf && !lf->name.empty()) {
+			std::deque<int> &q = pending_connects[lf->name];
+			if (!q.empty()) { nf->peer = q.front(); q.pop_front(); }
+		}
+		small_sndbuf(nfd);
+	}
+	return nfd;
+}
+static bool never_io(void *) { return false; }
+static void eagain_cost()
+{
+	// a caller that spins on EAGAIN burns CPU while everybody else keeps running: charge time, let others in
+	if (in_task() && C().eagain_cost_ns > 0) block_until(never_io, NULL, now_ns() + C().eagain_cost_ns, S_SEND);
+}
+extern "C" ssize_t simk_send(int fd, const void *b, size_t n, int fl)
+{
+	call_point(S_SEND);
+	OWN(fd);
+	int64_t a;
+	FdInfo *f = fdi(fd);
+	bool stream = f && f->kind == 1;
+	if (fault_here(F_SEND_EAGAIN, C().rate_send_eagain, NULL, 0)) { eagain_cost(); errno = EAGAIN; return -1; }
+	if (stream && n > 1 && fault_here(F_SEND_SHORT, C().rate_send_short, &a, (int64_t)n - 1)) n = (size_t)a + 1;
+	ssize_t r = send(fd, b, n, fl);
+	if (r < 0 && (errno == EAGAIN || errno == EWOULDBLOCK)) { int e = errno; eagain_cost(); errno = e; }
+	return r;
+}
+extern "C" ssize_t simk_recv(int fd, void *b, size_t n, int fl)
+{
+	call_point(S_RECV);
+	OWN(fd);
+	int64_t a;
+	FdInfo *f = fdi(fd);
+	bool stream = f && f->kind == 1;
+	if (stream && n > 1 && !(fl & MSG_PEEK) && fault_here(F_RECV_SHORT, C().rate_recv_short, &a, (int64_t)n - 1)) n = (size_t)a + 1;
+	return recv(fd, b, n, fl);
+}
+extern "C" ssize_t simk_recvmsg(int fd, struct msghdr *m, int fl)
+{
+	call_point(S_RECVMSG);
+	OWN(fd);
+	size_t keep = 0;
+	int64_t a;
+	if (m && m->msg_iovlen == 1 && m->msg_iov[0].iov_len > 1 &&
+	    fault_here(F_RECV_SHORT, C().rate_recv_short, &a, (int64_t)m->msg_iov[0].iov_len - 1)) {
+		keep = m->msg_iov[0].iov_len;
+		m->msg_iov[0].iov_len = (size_t)a + 1;
+	}
+	ssize_t r = recvmsg(fd, m, fl);
+	if (keep) m->msg_iov[0].iov_len = keep;
+	if (r >= 0 && in_task()) {
+		// the kernel reports the credentials of the process at the other end; here that is a simulated process
+		FdInfo *f = fdi(fd);
+		Proc *pp = f && f->peer ? proc_get(f->peer) : NULL;
+		if (pp) {
+			for (struct cmsghdr *c = CMSG_FIRSTHDR(m); c; c = CMSG_NXTHDR(m, c)) {
+				if (c->cmsg_level == SOL_SOCKET && c->cmsg_type == SCM_CREDENTIALS) {
+					struct ucred u;
+					memcpy(&u, CMSG_DATA(c), sizeof u);
+					u.pid = pp->spid; u.uid = pp->uid; u.gid = pp->gid;
+					memcpy(CMSG_DATA(c), &u, sizeof u);
+				}
+			}
+		}
+	}
+	return r;
+}
+extern "C" ssize_t simk_writev(int fd, const struct iovec *v, int n)
+{
+	call_point(S_WRITEV);
+	OWN(fd);
+	if (fault_here(F_SEND_EAGAIN, C().rate_send_eagain, NULL, 0)) { eagain_cost(); errno = EAGAIN; return -1; }
+	ssize_t r = writev(fd, v, n);
+	if (r < 0 && (errno == EAGAIN || errno == EWOULDBLOCK)) { int e = errno; eagain_cost(); errno = e; }
+	return r;
+}
+extern "C" int simk_shutdown(int fd, int how) { call_point(S_SHUTDOWN); OWN(fd); return shutdown(fd, how); }
+extern "C" int simk_getsockopt(int fd, int l, int o, void *v, socklen_t *n) { call_point(S_GETSOCKOPT); OWN(fd); return getsockopt(fd, l, o, v, n); }
+extern "C" int simk_setsockopt(int fd, int l, int o, const void *v, socklen_t n) { call_point(S_SETSOCKOPT); OWN(fd); return setsockopt(fd, l, o, v, n); }
+extern "C" int simk_getsockname(int fd, struct sockaddr *a, socklen_t *l) { call_point(S_GETSOCKNAME); OWN(fd); return getsockname(fd, a, l); }
 
 // ------------------------------------------------------------------ readiness
+struct PollWait { struct pollfd *fds; nfds_t n; int got; };
+static int poll_now(struct pollfd *fds, nfds_t n)
+{
+	// descriptors that are not the caller's read as invalid, exactly as a closed number would
+	std::vector<struct pollfd> tmp(fds, fds + n);
+	for (nfds_t i = 0; i < n; i++) if (!fd_ok(tmp[i].fd)) tmp[i].fd = -1;
+	int r = poll(tmp.data(), n, 0);
+	int cnt = 0;
+	for (nfds_t i = 0; i < n; i++) {
+		fds[i].revents = tmp[i].fd == -1 && fds[i].fd >= 0 ? POLLNVAL : tmp[i].revents;
+		if (fds[i].revents) cnt++;
+	}
+	return r < 0 ? r : cnt;
+}
+static bool poll_ready(void *p)
+{
+	PollWait *w = (PollWait *)p;
+	w->got = poll_now(w->fds, w->n);
+	return w->got != 0;
+}
 extern "C" int simk_poll(struct pollfd *fds, nfds_t n, int timeout)
 {
 	if (!in_task()) return poll(fds, n, timeout);
-	shim_call(S_POLL);
-	return poll(fds, n, 0);
+	call_point(S_POLL);
+	if (timeout != 0 && fault_here(F_EINTR_WAIT, C().rate_eintr, NULL, 0)) { errno = EINTR; return -1; }
+	int got = poll_now(fds, n);
+	if (got != 0 || timeout == 0) return got;
+	PollWait w; w.fds = fds; w.n = n; w.got = 0;
+	int64_t deadline = timeout < 0 ? -1 : now_ns() + (int64_t)timeout * 1000000LL;
+	int r = block_until(poll_ready, &w, deadline, S_POLL);
+	if (r == 0) return w.got > 0 ? w.got : poll_now(fds, n);
+	return 0;
 }
-extern "C" int simk_epoll_create1(int f) { shim_call(S_EPOLL_CREATE); return epoll_create1(f); }
-extern "C" int simk_epoll_ctl(int ep, int op, int fd, struct epoll_event *ev) { shim_call(S_EPOLL_CTL); return epoll_ctl(ep, op, fd, ev); }
+extern "C" int simk_epoll_create1(int f)
+{
+	call_point(S_EPOLL_CREATE);
+	int fd = epoll_create1(f);
+	if (fd >= 0) fd_track(fd, 0);
+	return fd;
+}
+extern "C" int simk_epoll_ctl(int ep, int op, int fd, struct epoll_event *ev) { call_point(S_EPOLL_CTL); OWN(ep); OWN(fd); return epoll_ctl(ep, op, fd, ev); }
 
 struct EpWait { int ep; struct epoll_event *evs; int max; int got; };
 static bool ep_ready(void *p)
@@ -129,7 +436,8 @@ extern "C" int simk_epoll_wait(int ep, struct epoll_event *evs, int max, int tim
 	if (!in_task()) return epoll_wait(ep, evs, max, timeout);
 	ShimHooks &H = shim_hooks();
 	if (H.on_epoll_wait) H.on_epoll_wait(timeout);
-	shim_call(S_EPOLL_WAIT);
+	call_point(S_EPOLL_WAIT);
+	OWN(ep);
 	if (fault_here(F_EINTR_WAIT, C().rate_eintr, NULL, 0)) { errno = EINTR; return -1; }
 	int64_t deadline = timeout < 0 ? -1 : now_ns() + (int64_t)timeout * 1000000LL;
 	int got;
@@ -163,7 +471,14 @@ extern "C" int simk_epoll_wait(int ep, struct epoll_event *evs, int max, int tim
 		got = epoll_wait(ep, evs, max, 0);
 		break;
 	}
-	if (timeout == 0 && C().epoll_zero_cost_ns) advance_ns(C().epoll_zero_cost_ns);
+	if (timeout == 0 && C().epoll_zero_cost_ns) {
+		// a loop spinning on zero timeouts burns real CPU time; the longer it spins the coarser it is accounted for
+		if (g_zero_streak < 1000) g_zero_streak++;
+		int sh = C().epoll_zero_cost_adaptive ? g_zero_streak / 8 : 0;
+		advance_ns(C().epoll_zero_cost_ns << (sh < 10 ? sh : 10));
+	} else if (timeout != 0) {
+		g_zero_streak = 0;
+	}
 	int64_t a;
 	if (got > 1 && fault_here(F_EPOLL_SHUFFLE, C().rate_epoll_shuffle, &a, 1 << 30)) {
 		Rng r((uint64_t)a);
@@ -174,18 +489,32 @@ extern "C" int simk_epoll_wait(int ep, struct epoll_event *evs, int max, int tim
 }
 
 // ------------------------------------------------------------------ files
-extern "C" char *simk_mkdtemp(char *t) { shim_call(S_MKDTEMP); return mkdtemp(t); }
-extern "C" int simk_mkstemp(char *t) { shim_call(S_MKSTEMP); return mkstemp(t); }
+extern "C" char *simk_mkdtemp(char *t)
+{
+	call_point(S_MKDTEMP);
+	char *r = mkdtemp(t);
+	if (r && in_task() && shim_hooks().on_path) shim_hooks().on_path(r, 'd');
+	return r;
+}
+extern "C" int simk_mkstemp(char *t)
+{
+	call_point(S_MKSTEMP);
+	int fd = mkstemp(t);
+	if (fd >= 0) fd_track(fd, 0);
+	if (fd >= 0 && in_task() && shim_hooks().on_path) shim_hooks().on_path(t, 'c');
+	return fd;
+}
 extern "C" int simk_unlink(const char *p)
 {
-	shim_call(S_UNLINK);
+	call_point(S_UNLINK);
 	char b[PATH_MAX];
 	if (fault_here(F_UNLINK_EACCES, C().rate_unlink, NULL, 0)) { errno = EACCES; return -1; }
 	return unlink(rw_path(p, b, sizeof b));
 }
 extern "C" int simk_unlinkat(int dfd, const char *p, int fl)
 {
-	shim_call(S_UNLINKAT);
+	call_point(S_UNLINKAT);
+	OWN(dfd);
 	if (fault_here(F_UNLINK_EACCES, C().rate_unlink, NULL, 0)) { errno = EACCES; return -1; }
 	// the directory descriptor was opened on the real directory; only the leaf needs rewriting
 	static const char pat[] = "qb-create_from_file-";
@@ -196,20 +525,44 @@ extern "C" int simk_unlinkat(int dfd, const char *p, int fl)
 	}
 	return unlinkat(dfd, p, fl);
 }
-extern "C" int simk_truncate(const char *p, off_t n) { shim_call(S_TRUNCATE); char b[PATH_MAX]; return truncate(rw_path(p, b, sizeof b), n); }
-extern "C" int simk_rmdir(const char *p) { shim_call(S_RMDIR); return rmdir(p); }
-extern "C" int simk_chmod(const char *p, mode_t m) { shim_call(S_CHMOD); char b[PATH_MAX]; return chmod(rw_path(p, b, sizeof b), m); }
-extern "C" int simk_chown(const char *p, uid_t u, gid_t g) { shim_call(S_CHOWN); char b[PATH_MAX]; return chown(rw_path(p, b, sizeof b), u, g); }
-extern "C" int simk_stat(const char *p, struct stat *st) { shim_call(S_STAT); char b[PATH_MAX]; return stat(rw_path(p, b, sizeof b), st); }
+extern "C" int simk_truncate(const char *p, off_t n) { call_point(S_TRUNCATE); char b[PATH_MAX]; return truncate(rw_path(p, b, sizeof b), n); }
+extern "C" int simk_rmdir(const char *p) { call_point(S_RMDIR); return rmdir(p); }
+extern "C" int simk_chmod(const char *p, mode_t m)
+{
+	call_point(S_CHMOD);
+	char b[PATH_MAX];
+	int r = chmod(rw_path(p, b, sizeof b), m);
+	if (r == 0 && in_task() && shim_hooks().on_path) shim_hooks().on_path(p, 'm');
+	return r;
+}
+extern "C" int simk_chown(const char *p, uid_t u, gid_t g)
+{
+	call_point(S_CHOWN);
+	char b[PATH_MAX];
+	if (in_task()) {
+		// ownership is a ledger: the simulated credentials need not exist on this machine (and we may not be root)
+		struct stat st;
+		if (stat(rw_path(p, b, sizeof b), &st) != 0) return -1;
+		PathOwner &o = chown_ledger[p];
+		if (u != (uid_t)-1) o.uid = u;
+		if (g != (gid_t)-1) o.gid = g;
+		o.set = true;
+		if (shim_hooks().on_path) shim_hooks().on_path(p, 'o');
+		return 0;
+	}
+	return chown(rw_path(p, b, sizeof b), u, g);
+}
+extern "C" int simk_stat(const char *p, struct stat *st) { call_point(S_STAT); char b[PATH_MAX]; return stat(rw_path(p, b, sizeof b), st); }
 
 // ------------------------------------------------------------------ memory
 extern "C" void *simk_mmap(void *a, size_t n, int prot, int fl, int fd, off_t off)
 {
-	shim_call(S_MMAP);
+	call_point(S_MMAP);
+	if (fd >= 0 && !fd_ok(fd)) { errno = EBADF; return MAP_FAILED; }
 	if (fault_here(F_MMAP_ENOMEM, C().rate_mmap, NULL, 0)) { errno = ENOMEM; return MAP_FAILED; }
 	return mmap(a, n, prot, fl, fd, off);
 }
-extern "C" int simk_munmap(void *a, size_t n) { shim_call(S_MUNMAP); return munmap(a, n); }
+extern "C" int simk_munmap(void *a, size_t n) { call_point(S_MUNMAP); return munmap(a, n); }
 
 // ------------------------------------------------------------------ identity, signals
 extern "C" pid_t simk_getpid(void)
@@ -217,6 +570,19 @@ extern "C" pid_t simk_getpid(void)
 	if (in_task() && cur_spid() > 0) return (pid_t)cur_spid();
 	return getpid();
 }
-extern "C" int simk_kill(pid_t p, int sig) { shim_call(S_KILL); return kill(p, sig); }
+extern "C" int simk_kill(pid_t p, int sig)
+{
+	call_point(S_KILL);
+	if (in_task()) {
+		Proc *pp = proc_get((int)p);
+		if (pp || p >= SIM_PID_BASE) {
+			if (!pp || !pp->alive) { errno = ESRCH; return -1; }
+			if (sig == 0) return 0;
+			errno = EPERM;
+			return -1;
+		}
+	}
+	return kill(p, sig);
+}
 extern "C" int simk_sigaction(int s, const struct sigaction *a, struct sigaction *o) { shim_call(S_SIGACTION); return sigaction(s, a, o); }
 extern "C" simk_sighandler_t simk_signal(int s, simk_sighandler_t h) { shim_call(S_SIGACTION); return signal(s, h); }
